@@ -19,6 +19,7 @@ package consensus
 import (
 	"encoding/hex"
 	"fmt"
+	"os"
 	"sort"
 	"strings"
 
@@ -490,6 +491,11 @@ func (x *explorer) stepF(i int, s int32, ev int32, fail int32) lStep {
 			if d2.key != dst.key || !eqOuts(outs, outs2) {
 				x.stats.diffMismatch++
 				x.mismatch = append(x.mismatch, fmt.Sprintf("node %d: projection too coarse at ev=%s\n from key=%s\n via hist: %s outs=%v\n via alt : %s outs=%v", i, x.evName(ev), src.key, dst.key, outs, d2.key, outs2))
+				if n.mwal != nil && n2.mwal != nil && os.Getenv("VERIF_DEBUG_WAL") != "" {
+					for _, id := range []string{"round", "lock", "commit"} {
+						fmt.Printf("DEBUGWAL %s hist: %x\nDEBUGWAL %s alt : %x\n", id, n.mwal.unsynced[id], id, n2.mwal.unsynced[id])
+					}
+				}
 			}
 		}
 	}
